@@ -5,6 +5,7 @@ package main
 import (
 	"fmt"
 	"math/rand"
+	"os"
 	"strings"
 
 	"verifharness/fw"
@@ -175,6 +176,9 @@ func run(c *fw.Ctx) {
 }
 
 func main() {
+	if tools(os.Args) {
+		return
+	}
 	fw.Main(&fw.Prop{
 		ID:       "C07",
 		Rule:     rule,
